@@ -161,6 +161,18 @@ func HighSTwin(sig []byte) []byte {
 	return out
 }
 
+// MirrorKey returns the key with private scalar n-d: its public key has the same X
+// coordinate (Y negated), a different address, and is nobody's attester.
+func MirrorKey(k AttKey) AttKey {
+	d := new(big.Int).Sub(secpN, k.Priv.D)
+	priv, err := crypto.ToECDSA(pad32(d.Bytes()))
+	if err != nil {
+		panic(err)
+	}
+	pub := crypto.FromECDSAPub(&priv.PublicKey)
+	return AttKey{Name: k.Name + "-mirror", Priv: priv, Pub: pub, Hex: hex.EncodeToString(pub), EthAddr: crypto.PubkeyToAddress(priv.PublicKey).Bytes()}
+}
+
 // Attest builds the honest attestation of msg by the given keys: sorted by
 // Ethereum address, strictly increasing.
 func Attest(msg []byte, keys []AttKey) []byte {
